@@ -102,14 +102,24 @@ impl Ctx {
         let mut model_answers: BTreeMap<String, u64> = BTreeMap::new();
         for (i, c) in self.cases.iter().enumerate() {
             let m = model.get(i).cloned().unwrap_or_else(|| "<no answer>".into());
-            let key = m.split(' ').take(2).collect::<Vec<_>>().join(" ");
-            let key = if key.starts_with("ok") { "ok".to_string() } else { key };
+            let key = if m.starts_with("ok") {
+                "ok".to_string()
+            } else if m.starts_with("err") || m.starts_with("panic") || m.starts_with("bad-op") {
+                m.split(' ').take(2).collect::<Vec<_>>().join(" ")
+            } else if let Some(t) = m.split(' ').find(|t| t.starts_with("end=")) {
+                t.to_string()
+            } else {
+                m.split(' ').last().unwrap_or("").chars().take(24).collect()
+            };
             *model_answers.entry(key).or_insert(0) += 1;
             if c.nontrivial {
                 distinct.insert(crate::util::fnv(&c.req));
             }
             if m != c.imp {
-                if disagreements.len() < 50 {
+                if disagreements.len() < 8 {
+                    // the first few in full, so that a disagreement can be replayed exactly
+                    disagreements.push(json!({"idx": i, "req": c.req, "impl": c.imp, "model": m, "attrs": c.attrs}));
+                } else if disagreements.len() < 50 {
                     disagreements.push(json!({"idx": i, "req": trunc(&c.req), "impl": trunc(&c.imp), "model": trunc(&m), "attrs": c.attrs}));
                 }
             }
